@@ -69,7 +69,7 @@ CLAIMED.update({
  "C15": dict(
    category="fault_enumeration", design="DESIGN.md §3 C15",
    technique="runtime monitoring: IOS simulator with reload state machine injecting asynchronous banners at enumerated positions/forms/chunkings; transcript ordering invariants + outcome equality with the banner-free run",
-   text="23 IOS change scripts x every received line of the guarded window x banner form (before echo with own prompt, inside echo at 3 offsets, after echo without / with own prompt, behind the complete echo line, after the regular prompt) x kind (2:00, 1:00 in both spellings 0:0N:00 and 00:0N:00, ABORTED placement) x 3 write chunkings, the confirmation step of the arm dialogue included (~7000 live runs thorough, every sampled case with a twin on a router that does not ask 'Save?'; quick a hash sample: 1-in-4, two-digit hour spelling 1-in-8, twins 1-in-3): every change inside the armed window, write memory only after cancel and without rejected change, nothing pending after success, same exit status and change sequence as without banner, re-arm after a 1:00 banner.",
+   text="23 IOS change scripts x every received line of the guarded window x banner form (before echo with own prompt, inside echo at 3 offsets, after echo without / with own prompt, behind the complete echo line, after the regular prompt) x kind (2:00, 1:00 in both spellings 0:0N:00 and 00:0N:00, ABORTED placement at the cancel and asynchronously at change commands) x 3 write chunkings, the confirmation step of the arm dialogue included (~7000 live runs thorough, every sampled case with a twin on a router that does not ask 'Save?'; quick a hash sample: 1-in-4, two-digit hour spelling 1-in-8, twins 1-in-3): every change inside the armed window, write memory only after cancel and without rejected change, nothing pending after success, same exit status and change sequence as without banner, re-arm after a 1:00 banner.",
    note="Only banner forms the device is known to produce; the simulated router never actually reloads; a banner with own prompt between echo and output of 'configure terminal' is not generated."),
  "C17": dict(
    category="exploration", design="DESIGN.md §3 C17",
